@@ -155,6 +155,7 @@ pub fn run_case(report: &Report, shard_seed: u64, case: u64, p: &Params) {
     rt.block_on(case_body(report, &mut rng, shard_seed, case, p));
 }
 
+#[allow(unused_assignments)]
 async fn case_body(report: &Report, rng: &mut StdRng, shard_seed: u64, case: u64, p: &Params) {
     let ttl_ms = *pick(rng, &[0u64, 1, 1, 20, 20, 20, 1000, 1000, 5000, 5000]);
     let ttl = Duration::from_millis(ttl_ms);
@@ -427,8 +428,8 @@ pub fn run(args: &Args, report: &Report) {
         return;
     }
     let shards = 16usize;
-    let cases: u64 = args.by_tier(100, 500);
-    let ops: usize = args.by_tier(400, 500);
+    let cases: u64 = args.by_tier(100, 1500);
+    let ops: usize = args.by_tier(400, 600);
     let rep = report.clone();
     run_shards(report, args, shards, move |_shard, shard_seed| {
         for case in 0..cases {
@@ -436,15 +437,15 @@ pub fn run(args: &Args, report: &Report) {
         }
     });
     if selftest == 0 {
-        report.require("queries.total", 50_000);
-        report.require("queries.must_return.submitted", 5_000);
-        report.require("queries.must_return.submitted_older_than_ttl", 1_000);
-        report.require("queries.must_return.within_ttl", 5_000);
-        report.require("queries.must_return.within_ttl_after_expired_predecessor", 500);
-        report.require("queries.expired.forgotten", 2_000);
-        report.require("queries.age.ttl-1ms", 200);
-        report.require("queries.age.=ttl", 200);
-        report.require("published.replacing_unexpired_status", 2_000);
+        report.require("queries.total", 300_000);
+        report.require("queries.must_return.submitted", 50_000);
+        report.require("queries.must_return.submitted_older_than_ttl", 10_000);
+        report.require("queries.must_return.within_ttl", 50_000);
+        report.require("queries.must_return.within_ttl_after_expired_predecessor", 10_000);
+        report.require("queries.expired.forgotten", 20_000);
+        report.require("queries.age.ttl-1ms", 2_000);
+        report.require("queries.age.=ttl", 2_000);
+        report.require("published.replacing_unexpired_status", 20_000);
         report.require("ops.publish.update_statuses", 500);
         report.require("ops.publish.update_preconfirmations", 2_000);
     }
